@@ -4,11 +4,12 @@ Require Import Mido.Model.Base Mido.Model.Ports Mido.Proofs.PortsProofs.
 Import ListNotations.
 Open Scope Z_scope.
 
-(* for EVERY device script (messages, nothing, pushes, the device closing itself inside _receive) and EVERY sequence of send / receive /
-   poll / iter_pending / iteration / close / with-block / __del__, of any length: the device is released exactly when the port is
+(* for EVERY device script (messages, nothing, pushes, the device closing itself inside _receive), EVERY sequence of _send faults (OSError
+   from the device at any of its _send calls) and EVERY sequence of send / receive / poll / iter_pending / iteration / close / with-block /
+   __del__ / reset, of any length: the device is released exactly when the port is
    closed, and never more than once *)
-Theorem C11_close_once : forall fuel autoreset echo script ops,
-  let p := fst (port_run fuel (new_port autoreset echo script) ops) in
+Theorem C11_close_once : forall fuel autoreset echo script faults ops,
+  let p := fst (port_run fuel (new_port autoreset echo script faults) ops) in
   (p_closed p = false /\ p_closes p = 0%nat) \/ (p_closed p = true /\ p_closes p = 1%nat).
 Proof. exact close_once_new. Qed.
 Print Assumptions C11_close_once.
@@ -16,10 +17,15 @@ Theorem C11_close_idempotent : forall p, p_closed p = true -> close p = p.
 Proof. exact close_idempotent. Qed.
 Print Assumptions C11_close_idempotent.
 (* with autoreset the reset messages reach the device once, contiguous, immediately before the release *)
-Theorem C11_autoreset : forall p, p_closed p = false -> p_autoreset p = true -> p_echo p = false ->
+Theorem C11_autoreset : forall p, p_closed p = false -> p_autoreset p = true -> p_echo p = false -> p_faults p = [] ->
   p_sent (close p) = p_sent p ++ reset_ids /\ p_closes (close p) = S (p_closes p) /\ p_closed (close p) = true.
 Proof. exact close_autoreset. Qed.
 Print Assumptions C11_autoreset.
+(* and if the device fails during the reset: it is still released, once, and what went out is a prefix of the reset messages *)
+Theorem C11_release_despite_faults : forall p, p_closed p = false -> p_echo p = false ->
+  p_closes (close p) = S (p_closes p) /\ p_closed (close p) = true /\ exists k, p_sent (close p) = p_sent p ++ firstn k reset_ids.
+Proof. exact close_releases_despite_faults. Qed.
+Print Assumptions C11_release_despite_faults.
 (* after close, send raises ValueError and leaves the port as it was *)
 Theorem C11_send_closed : forall p m, p_closed p = true -> send p m = (p, Raise ValueError).
 Proof. exact send_closed. Qed.
@@ -64,10 +70,10 @@ Theorem C11_multi_prompt : forall fuel mp, m_queue mp <> [] \/ snd (sweep (S fue
   exists mp' m, multi_receive (S fuel) true mp = (mp', Ok (Some m)) /\ m_sleeps mp' = m_sleeps mp.
 Proof. exact multi_blocking_prompt. Qed.
 Print Assumptions C11_multi_prompt.
-Example C11_nonvacuous : snd (port_run 5 (new_port false false [APush [1; 2]; AClose]) [PIterate 1000; PPoll; PClose])
+Example C11_nonvacuous : snd (port_run 5 (new_port false false [APush [1; 2]; AClose] []) [PIterate 1000; PPoll; PClose])
   = [OList_ [1; 2]; OMsg_ None; ONone_].
 Proof. vm_compute. reflexivity. Qed.
-Example C11_nonvacuous_block : (fst (port_run 5 (new_port true false [ANothing; ANothing; AMsg 7]) [PReceive true; PClose; PClose; PSend 1])) =
-  {| p_closed := true; p_queue := []; p_script := []; p_closes := 1; p_sent := reset_ids; p_autoreset := true; p_echo := false; p_sleeps := 2; p_calls := 3 |}
-  /\ snd (port_run 5 (new_port true false [ANothing; ANothing; AMsg 7]) [PReceive true; PClose; PClose; PSend 1]) = [OMsg_ (Some 7); ONone_; ONone_; OErr_ ValueError].
+Example C11_nonvacuous_block : (fst (port_run 5 (new_port true false [ANothing; ANothing; AMsg 7] []) [PReceive true; PClose; PClose; PSend 1])) =
+  {| p_closed := true; p_queue := []; p_script := []; p_closes := 1; p_sent := reset_ids; p_autoreset := true; p_echo := false; p_sleeps := 2; p_calls := 3; p_faults := [] |}
+  /\ snd (port_run 5 (new_port true false [ANothing; ANothing; AMsg 7] []) [PReceive true; PClose; PClose; PSend 1]) = [OMsg_ (Some 7); ONone_; ONone_; OErr_ ValueError].
 Proof. vm_compute. split; reflexivity. Qed.
